@@ -6,6 +6,9 @@ R = {
  "afterfunc-noise": [("peer.go", "\t<-p.startupDelayTimer.C\n", "\t<-p.startupDelayTimer.C\n\tp.noise = time.AfterFunc(time.Hour, func() { logf(\"never\") })\n\ttime.AfterFunc(time.Second, func() { logf(\"[%s] peer object is one second old\", config.RemoteAddress) })\n"),
                      ("peer.go", "\tinHoldDown        bool\n", "\tinHoldDown        bool\n\tnoise             *time.Timer\n"),
                      ("peer.go", "\t\tp.startupDelayTimer.Stop()\n\t\tclose(p.doneCh)", "\t\tp.startupDelayTimer.Stop()\n\t\tp.noise.Reset(time.Minute)\n\t\tp.noise.Stop()\n\t\tclose(p.doneCh)")],
+ "more-logging": [("fsm.go", "func (f *fsm) sendNotification(n *Notification) error {\n\tb, err := n.encode()\n", "func (f *fsm) sendNotification(n *Notification) error {\n\tlogf(\"[%s] sending NOTIFICATION %d/%d\", f.peer.config.RemoteAddress, n.Code, n.Subcode)\n\tb, err := n.encode()\n"),
+                  ("fsm.go", "func (f *fsm) openSent() (fsmState, error) {\n", "func (f *fsm) openSent() (fsmState, error) {\n\tlogf(\"[%s] OPEN sent, waiting for the remote's\", f.peer.config.RemoteAddress)\n"),
+                  ("fsm.go", "func (f *fsm) established() (fsmState, error) {\n", "func (f *fsm) established() (fsmState, error) {\n\tlogf(\"[%s] session up\", f.peer.config.RemoteAddress)\n")],
  "ka-quarter": [("fsm.go", "f.keepAliveInterval = f.holdTime / 3", "f.keepAliveInterval = f.holdTime / 4")],
  "cease-subcode-data": [("fsm.go", "\t\t\tcase <-f.closeCh:\n\t\t\t\tn := newNotification(NOTIF_CODE_CEASE, 0, nil)\n\t\t\t\tf.sendNotification(n) // nolint: errcheck\n\t\t\t\treturn disabledState, newNotificationError(n, true)\n\t\t\tcase <-f.holdTimer.C:\n\t\t\t\tn := newNotification(NOTIF_CODE_HOLD_TIMER_EXPIRED, 0, nil)\n\t\t\t\tf.sendNotification(n) // nolint: errcheck\n\t\t\t\treturn idleState, newNotificationError(n, true)\n\t\t\tcase <-f.keepAliveTimer.C:\n\t\t\t\terr := f.sendKeepAlive()\n\t\t\t\tif err != nil {\n\t\t\t\t\treturn idleState, fmt.Errorf(\"error sending keepAlive: %w\", err)\n\t\t\t\t}\n\t\t\t\tresetKATimerCh <- struct{}{}",
                                     "\t\t\tcase <-f.closeCh:\n\t\t\t\tn := newNotification(NOTIF_CODE_CEASE, 2, []byte{4, 'b', 'y', 'e', '!'})\n\t\t\t\tf.sendNotification(n) // nolint: errcheck\n\t\t\t\treturn disabledState, newNotificationError(n, true)\n\t\t\tcase <-f.holdTimer.C:\n\t\t\t\tn := newNotification(NOTIF_CODE_HOLD_TIMER_EXPIRED, 0, nil)\n\t\t\t\tf.sendNotification(n) // nolint: errcheck\n\t\t\t\treturn idleState, newNotificationError(n, true)\n\t\t\tcase <-f.keepAliveTimer.C:\n\t\t\t\terr := f.sendKeepAlive()\n\t\t\t\tif err != nil {\n\t\t\t\t\treturn idleState, fmt.Errorf(\"error sending keepAlive: %w\", err)\n\t\t\t\t}\n\t\t\t\tresetKATimerCh <- struct{}{}")],
